@@ -94,6 +94,10 @@ pub fn run_source(source: &str, lang: Lang, cfg: &Cfg) -> Result<RunOk, (RunFail
         Outcome::Ok(m) => m.values().next().cloned().unwrap_or_default(),
         _ => return Err((RunFail::Pipeline(o), source)),
     };
+    if text.is_empty() {
+        // nothing annotated: the pipeline writes no file at all
+        return Ok(RunOk { text, out: OutFile::default(), source });
+    }
     match extract::extract(lang, &text) {
         Ok(out) => Ok(RunOk { text, out, source }),
         Err(e) => Err((RunFail::Extract { class: e.class(), msg: e.msg(), line: e.line(), text }, source)),
